@@ -128,6 +128,53 @@ fn check_equal_group_u(routes: &[(String, UBig)], v: &BigUint) -> R {
     Ok(())
 }
 
+/// normalised float representation: significand not divisible by the base, zero is 0 x B^0
+fn fnorm<Rm: dashu_float::round::Round, const B: dashu_int::Word>(f: &FBig<Rm, B>, what: &str) -> R {
+    let sg = int_of(f.repr().significand());
+    if f.repr().is_infinite() {
+        return Ok(());
+    }
+    if sg.is_zero() {
+        ensure!(f.repr().exponent() == 0, "float_repr", "{}: zero stored with exponent {}", what, f.repr().exponent());
+    } else {
+        ensure!(!(&sg % BigInt::from(B as u64)).is_zero(), "float_repr", "{}: significand {} is divisible by the base {}", what, sg, B);
+    }
+    Ok(())
+}
+
+/// the same value reached through an exact base conversion (source base = target base ^ n) and built
+/// directly in the target base must be ==, cmp Equal and normalised
+fn conv_route<const A: dashu_int::Word, const T: dashu_int::Word>(neg: bool, sig: &BigUint, e: i64, n: i64) -> R {
+    let si = ibig(neg, &limbs_of_nat(sig));
+    let src = FBig::<mode::Zero, A>::from_parts(si.clone(), e as isize);
+    let val = q_of_repr(src.repr());
+    // with_base picks its target precision from f32 log2 estimates and may come out one digit short (then the
+    // result is legitimately rounded): the precision is given explicitly, n digits of T per digit of A suffice
+    let (dst, exact) = match src.clone().with_base_and_precision::<T>(src.precision().max(1) * n as usize) {
+        Approximation::Exact(v) => (v, true),
+        Approximation::Inexact(v, _) => (v, false),
+    };
+    fnorm(&dst, "with_base_and_precision result")?;
+    if let Approximation::Exact(v) = src.clone().with_base::<T>() {
+        fnorm(&v, "with_base result")?;
+        ensure!(v == dst && v.cmp(&dst) == Ordering::Equal, "eq", "with_base and with_base_and_precision (both Exact) give different values");
+    }
+    ensure!(exact, "flag", "with_base_and_precision from base {} to base {} with {} digits per digit reported Inexact", A, T, n);
+    ensure!(q_of_repr(dst.repr()) == val, "route_value", "with_base::<{}> changed the value of {}*{}^{}", T, si, A, e);
+    // direct construction in the target base: s * A^e = s * T^(n e)
+    let direct = FBig::<mode::HalfAway, T>::from_parts(ibig_of_int(&int(neg, &limbs_of_nat(sig))), (e * n) as isize);
+    ensure!(q_of_repr(direct.repr()) == val, "route_value", "direct construction differs");
+    let direct0: FBig<mode::Zero, T> = direct.clone().with_rounding::<mode::Zero>();
+    ensure!(dst == direct0 && direct0 == dst, "eq", "value converted from base {} != the same value built in base {} ({:?} vs {:?})", A, T, dst.repr(), direct0.repr());
+    ensure!(dst.cmp(&direct0) == Ordering::Equal && direct0.cmp(&dst) == Ordering::Equal, "cmp", "converted value does not compare Equal to the directly built one");
+    // and back (T -> A is exact only if the exponent is aligned; judge only what is flagged Exact)
+    if let Approximation::Exact(back) = dst.clone().with_base::<A>() {
+        fnorm(&back, "with_base round trip")?;
+        ensure!(back == src && src == back && back.cmp(&src) == Ordering::Equal, "eq", "round trip through base {} is flagged Exact but != the original", T);
+    }
+    Ok(())
+}
+
 fn sgn(neg: bool) -> Sign {
     if neg {
         Sign::Negative
@@ -303,12 +350,13 @@ fn case(m: &mut Mon, r: &mut Rng, _idx: u64) {
             let sig = nat(&gen::small_mag(r));
             let neg = r.bool();
             let e = r.range(-300, 300);
-            let base10 = r.bool();
+            let _base10 = r.bool();
             let k = r.usize(8);
-            let other_kind = r.below(4);
+            let other_kind = r.below(5);
+            let fb = r.below(4);
             let dlt = r.range(-3, 3);
-            let d = || format!("float_routes base={} sig={}{} exp={} k={} other_kind={} dlt={}", if base10 { 10 } else { 2 }, if neg { "-" } else { "" }, show_nat(&sig), e, k, other_kind, dlt);
-            let h = gen::hash_limbs((e as u64) << 8 ^ k as u64 ^ (base10 as u64) << 40 ^ (other_kind << 44) ^ ((dlt + 5) as u64) << 48, &limbs_of_nat(&sig));
+            let d = || format!("float_routes base={} sig={}{} exp={} k={} other_kind={} dlt={}", [10, 2, 16, 3][fb as usize], if neg { "-" } else { "" }, show_nat(&sig), e, k, other_kind, dlt);
+            let h = gen::hash_limbs((e as u64) << 8 ^ k as u64 ^ (fb as u64) << 40 ^ (other_kind << 44) ^ ((dlt + 5) as u64) << 48, &limbs_of_nat(&sig));
             macro_rules! float_case {
                 ($B:literal) => {{
                     type F0 = FBig<mode::Zero, $B>;
@@ -324,15 +372,35 @@ fn case(m: &mut Mon, r: &mut Rng, _idx: u64) {
                         Approximation::Exact(v) => v,
                         Approximation::Inexact(v, _) => return fail("flag", format!("with_precision to more digits reported Inexact ({})", v)),
                     };
+                    // unlimited precision (0) routes: explicit, and through exact arithmetic on unlimited values
+                    let a4 = match a0.clone().with_precision(0) {
+                        Approximation::Exact(v) => v,
+                        Approximation::Inexact(v, _) => return fail("flag", format!("with_precision(0) reported Inexact ({})", v)),
+                    };
+                    let a5 = (a4.clone() << 7isize) >> 7isize;
+                    let a6 = &a4 * F0::ONE + F0::ZERO;
                     let val = q_of_parts(&int(neg, &limbs_of_nat(&sig)), e, $B);
-                    ensure!(q_of_repr(a0.repr()) == val && q_of_repr(a1.repr()) == val && q_of_repr(a3.repr()) == val, "route_value", "float routes differ in value");
-                    ensure!(a0 == a1 && a1 == a0 && a0 == a2 && a0 == a3, "eq", "equal floats of different precision/mode compare != (precisions {}, {}, {})", a0.precision(), a1.precision(), a3.precision());
-                    ensure!(a0.partial_cmp(&a1) == Some(Ordering::Equal) && a0.partial_cmp(&a2) == Some(Ordering::Equal) && a0.cmp(&a3) == Ordering::Equal, "cmp", "equal floats do not compare Equal");
+                    ensure!(q_of_repr(a0.repr()) == val && q_of_repr(a1.repr()) == val && q_of_repr(a3.repr()) == val && q_of_repr(a4.repr()) == val && q_of_repr(a5.repr()) == val && q_of_repr(a6.repr()) == val, "route_value", "float routes differ in value");
+                    fnorm(&a0, "from_parts")?;
+                    fnorm(&a1, "from_parts with trailing zeros")?;
+                    fnorm(&a3, "with_precision")?;
+                    fnorm(&a5, "shift round trip")?;
+                    fnorm(&a6, "x * 1 + 0")?;
+                    ensure!(a0 == a1 && a1 == a0 && a0 == a2 && a0 == a3 && a0 == a4 && a4 == a1 && a5 == a0 && a6 == a3, "eq", "equal floats of different precision/mode compare != (precisions {}, {}, {}, {})", a0.precision(), a1.precision(), a3.precision(), a4.precision());
+                    ensure!(a0.partial_cmp(&a1) == Some(Ordering::Equal) && a0.partial_cmp(&a2) == Some(Ordering::Equal) && a0.cmp(&a3) == Ordering::Equal && a4.cmp(&a0) == Ordering::Equal && a1.partial_cmp(&a4) == Some(Ordering::Equal) && a5.cmp(&a3) == Ordering::Equal, "cmp", "equal floats do not compare Equal");
                     // another value
+                    let ndig = dvh::qref::digits(&int(false, &limbs_of_nat(&sig)), $B) as i64;
                     let (osig, oe): (BigInt, i64) = match other_kind {
                         0 => (int(neg, &limbs_of_nat(&sig)) + dlt, e),
                         1 => (int(neg, &limbs_of_nat(&sig)), e + dlt),
                         2 => (int(neg, &limbs_of_nat(&sig)) * BigInt::from($B as u32) + dlt, e - 1),
+                        // a short operand (1..3 digits) whose exponent lies inside the digit span of the long one:
+                        // the precision-based shortcuts must not be fooled by a small or an unlimited precision
+                        3 => {
+                            let hi = if r.bool() { ($B as i64 - 1).max(2) } else { 300 };
+                            let mg = r.range(1, hi);
+                            (BigInt::from(if neg { -mg } else { mg }), e + r.range(-2, ndig + 2))
+                        }
                         _ => (int(r.bool(), &gen::small_mag(r)), r.range(-300, 300)),
                     };
                     let oval = q_of_parts(&osig, oe, $B);
@@ -341,6 +409,15 @@ fn case(m: &mut Mon, r: &mut Rng, _idx: u64) {
                     let want = val.cmp(&oval);
                     ensure!(a0.cmp(&b0) == want && b0.cmp(&a0) == want.reverse(), "cmp", "cmp({}, {}) = {:?} want {:?}", a0, b0, a0.cmp(&b0), want);
                     ensure!(a1.cmp(&b1) == want && a0.partial_cmp(&b1) == Some(want) && a3.cmp(&b0) == want, "cmp", "cmp across precisions != {:?}", want);
+                    let b4 = b0.clone().with_precision(0).value();
+                    ensure!(a4.cmp(&b0) == want && b0.cmp(&a4) == want.reverse() && a0.cmp(&b4) == want && b4.partial_cmp(&a1) == Some(want.reverse()) && a4.cmp(&b4) == want && a6.partial_cmp(&b1) == Some(want),
+                        "cmp", "cmp with an unlimited-precision operand != {:?} (a: {} digits, precisions a0={} b0={})", want, ndig, a0.precision(), b0.precision());
+                    ensure!((a4 == b0) == (want == Ordering::Equal) && (b4 == a1) == (want == Ordering::Equal), "eq", "== with an unlimited-precision operand inconsistent with exact values");
+                    {
+                        use dashu_base::AbsOrd;
+                        let wabs = num_traits::Signed::abs(&val).cmp(&num_traits::Signed::abs(&oval));
+                        ensure!(a4.abs_cmp(&b0) == wabs && b0.abs_cmp(&a4) == wabs.reverse() && a0.abs_cmp(&b4) == wabs, "abs_cmp", "abs_cmp != {:?}", wabs);
+                    }
                     ensure!((a0 == b0) == (want == Ordering::Equal) && (a0 == b1) == (want == Ordering::Equal), "eq", "== inconsistent with exact values");
                     // infinities
                     let (pinf, ninf) = (F0::INFINITY, F0::NEG_INFINITY);
@@ -350,7 +427,26 @@ fn case(m: &mut Mon, r: &mut Rng, _idx: u64) {
                     Ok(())
                 }};
             }
-            m.check("float_routes", if base10 { "b10" } else { "b2" }, Some(h), &d, || if base10 { float_case!(10) } else { float_case!(2) });
+            match fb {
+                0 => m.check("float_routes", "b10", Some(h), &d, || float_case!(10)),
+                1 => m.check("float_routes", "b2", Some(h), &d, || float_case!(2)),
+                2 => m.check("float_routes", "b16", Some(h), &d, || float_case!(16)),
+                _ => m.check("float_routes", "b3", Some(h), &d, || float_case!(3)),
+            }
+            // values produced by conversions between power-related bases
+            let (csig, ce) = (nat(&gen::small_mag(r)), r.range(-40, 40));
+            let cneg = r.bool();
+            let pair = r.below(6);
+            let d2 = || format!("float_conv_routes pair={} sig={}{} exp={}", pair, if cneg { "-" } else { "" }, show_nat(&csig), ce);
+            let h2 = gen::hash_limbs((ce as u64) << 8 ^ pair << 50, &limbs_of_nat(&csig));
+            m.check("float_conv_routes", "conv", Some(h2), &d2, || match pair {
+                0 => conv_route::<16, 2>(cneg, &csig, ce, 4),
+                1 => conv_route::<8, 2>(cneg, &csig, ce, 3),
+                2 => conv_route::<4, 2>(cneg, &csig, ce, 2),
+                3 => conv_route::<100, 10>(cneg, &csig, ce, 2),
+                4 => conv_route::<9, 3>(cneg, &csig, ce, 2),
+                _ => conv_route::<16, 4>(cneg, &csig, ce, 2),
+            });
         }
     }
 }
